@@ -268,6 +268,9 @@ func genEventData(r *Rng) any {
 
 func genTripData(r *Rng) map[string]any {
 	n := r.Intn(4)
+	if r.P(1, 6) {
+		n = 4 + r.Intn(12) // long enough for any fixed-size staging buffer to wrap several times
+	}
 	stus := []any{}
 	for i := 0; i < n; i++ {
 		m := map[string]any{"sr": genNum(r, 32) % 4, "arrival": genEventData(r), "departure": genEventData(r)}
@@ -346,7 +349,7 @@ func collectLeaves(v any, prefix []pathElem, out *[]leaf) {
 // mutateOne returns a copy of d differing from it in exactly one data field (or in the number of updates).
 func mutateOne(r *Rng, d map[string]any) (map[string]any, string) {
 	c := deepCopyJSON(d).(map[string]any)
-	switch r.Intn(7) {
+	switch r.Intn(9) {
 	case 0: // string boundary shift between id and routeId
 		id, rt := gs(c, "id"), gs(c, "routeId")
 		if tr := gm(c, "trip"); tr != nil {
@@ -367,6 +370,72 @@ func mutateOne(r *Rng, d map[string]any) (map[string]any, string) {
 				c["stus"] = append(stus, map[string]any{"sr": 0})
 			}
 			return c, "count"
+		}
+	case 2: // presence swap: an optional number moves to an absent optional sibling, value unchanged
+		var evs []map[string]any
+		var walk func(v any)
+		walk = func(v any) {
+			switch t := v.(type) {
+			case map[string]any:
+				for _, k := range []string{"arrival", "departure"} {
+					if e, ok := t[k].(map[string]any); ok {
+						evs = append(evs, e)
+					}
+				}
+				for _, x := range t {
+					walk(x)
+				}
+			case []any:
+				for _, x := range t {
+					walk(x)
+				}
+			}
+		}
+		walk(c)
+		for _, i := range r.Perm(len(evs)) {
+			e := evs[i]
+			_, hasT := e["time"]
+			_, hasD := e["delay"]
+			if hasT != hasD {
+				if hasT {
+					e["delay"] = e["time"]
+					delete(e, "time")
+				} else {
+					e["time"] = e["delay"]
+					delete(e, "delay")
+				}
+				return c, "presence-swap"
+			}
+		}
+	case 3: // the last byte of one string (same length)
+		var leaves []leaf
+		collectLeaves(c, nil, &leaves)
+		for _, i := range r.Perm(len(leaves)) {
+			l := leaves[i]
+			if len(l.path) == 0 || l.path[len(l.path)-1].key == "" {
+				continue
+			}
+			var parent any = c
+			for _, e := range l.path[:len(l.path)-1] {
+				if e.key != "" {
+					parent = parent.(map[string]any)[e.key]
+				} else {
+					parent = parent.([]any)[e.idx]
+				}
+			}
+			pm, ok := parent.(map[string]any)
+			if !ok {
+				continue
+			}
+			if x, ok := pm[l.path[len(l.path)-1].key].(string); ok && len(x) > 0 {
+				b := []byte(unbstr(x))
+				if len(b) == 0 {
+					continue
+				}
+				b[len(b)-1] ^= 1
+				pm[l.path[len(l.path)-1].key] = bstr(string(b))
+				return c, "string-tail"
+			}
 		}
 	}
 	var leaves []leaf
@@ -430,7 +499,7 @@ func mutateOne(r *Rng, d map[string]any) (map[string]any, string) {
 type hashProp struct{}
 
 func (p *hashProp) Rule() string {
-	return "random trips and vehicles over small string pools and numeric edge values (0, 1, max, sign bit, random), every optional field independently present or absent; two thirds of the cases are pairs: a value and a copy differing in exactly one data field (string boundary shift, update count, nil-vs-zero, nil-vs-value, one number, one string) or an equal-data copy presented differently (other time zone, in-message flag, vehicle back-reference); distinct = distinct input JSON; non-trivial = vehicle, or trip with at least one update, or a pair"
+	return "random trips and vehicles over small string pools and numeric edge values (0, 1, max, sign bit, random), every optional field independently present or absent; two thirds of the cases are pairs: a value and a copy differing in exactly one data field (string boundary shift, update count, nil-vs-zero, nil-vs-value, one number, one string, the last byte of one string) or in which a number moves from one optional field of an event to its absent sibling (time <-> delay) or an equal-data copy presented differently (other time zone, in-message flag, vehicle back-reference); on every value, each string in turn has its last byte changed and the hash input must change; distinct = distinct input JSON; non-trivial = vehicle, or trip with at least one update, or a pair"
 }
 
 func (p *hashProp) N(tier string) int {
@@ -497,6 +566,48 @@ func (p *hashProp) Check(in map[string]any, model json.RawMessage) Verdict {
 		v.Tags = append(v.Tags, "vehicle")
 	} else {
 		v.Tags = append(v.Tags, "trip")
+	}
+	// sweep over every string of the value: flipping the last byte of any one of them must change the hash input
+	// (wherever that string happens to fall in the implementation's staging of the stream)
+	{
+		var leaves []leaf
+		norm := deepCopyJSON(a)
+		collectLeaves(norm, nil, &leaves)
+		swept := 0
+		for _, l := range leaves {
+			if len(l.path) == 0 || l.path[len(l.path)-1].key == "" {
+				continue
+			}
+			c := deepCopyJSON(norm)
+			var parent any = c
+			for _, e := range l.path[:len(l.path)-1] {
+				if e.key != "" {
+					parent = parent.(map[string]any)[e.key]
+				} else {
+					parent = parent.([]any)[e.idx]
+				}
+			}
+			pm, ok := parent.(map[string]any)
+			if !ok {
+				continue
+			}
+			key := l.path[len(l.path)-1].key
+			x, ok := pm[key].(string)
+			if !ok || len(unbstr(x)) == 0 {
+				continue
+			}
+			b := []byte(unbstr(x))
+			b[len(b)-1] ^= 1
+			pm[key] = bstr(string(b))
+			swept++
+			if implStream(c, 0) == sa {
+				v.Violations = append(v.Violations, Viol{"c13-collision", fmt.Sprintf("changing the last byte of %s (%q) leaves the hash input unchanged", key, unbstr(x))})
+				break
+			}
+		}
+		if swept >= 8 {
+			v.Tags = append(v.Tags, "string-tail-sweep>=8")
+		}
 	}
 	if has(in, "b") {
 		b := in["b"]
